@@ -49,6 +49,11 @@ def run(ctx, dn):
     if ctx.tier == "quick":
         _hist.exhaustive(ctx, dn, battery, 2, two_pairs_len=2)
         _hist.second_life(ctx, dn, battery, 6)
+        _hist.long_second_life(ctx, dn, battery)
+        if ctx.shard % 2 == 0:
+            _hist.bulk_load(ctx, dn, battery)
+        _hist.around_zero(ctx, dn, battery, 2)
+        _hist.stress(ctx, dn, battery, 300, every=100, base=2 ** 60)
         _hist.long_timelines(ctx, dn, battery, 4)
         _hist.random_histories(ctx, dn, battery, until=3, clears=True)
         _hist.stress(ctx, dn, battery, 1500, every=100)
@@ -56,6 +61,11 @@ def run(ctx, dn):
         # every history of length <= 4 over one pair (2 x 2 625 640 histories over the 16 shards), then two pairs
         _hist.exhaustive(ctx, dn, battery, 4, two_pairs_len=3)
         _hist.second_life(ctx, dn, battery, 60)
+        for _ in range(4):
+            _hist.long_second_life(ctx, dn, battery)
+        _hist.around_zero(ctx, dn, battery, 3)
+        _hist.bulk_load(ctx, dn, battery)
+        _hist.stress(ctx, dn, battery, 2000, every=200, base=2 ** 60)
         _hist.long_timelines(ctx, dn, battery, 40)
         _hist.random_histories(ctx, dn, battery, until=25, clears=True)
         for _ in range(3):
